@@ -271,7 +271,102 @@ TWIN_HELPERS = {
 }
 
 
-def twin_body(body):
+TWIN_HELPERS["c05"] = """func TH1(x int) *rt.Co[int] {
+	return rt.NewCo(func(yield_ func(int)) {
+		for i := 0; i < 3; i++ {
+			rt.Emit(rt.EFF, 700+i)
+			yield_(x + 1000*(i+1))
+		}
+		rt.Emit(rt.EFF, 709)
+	})
+}
+
+func TH2(x int) *rt.Co[int] {
+	return rt.NewCo(func(yield_ func(int)) {
+		rt.Emit(rt.EFF, 710)
+		yield_(x + 1)
+		rt.Emit(rt.EFF, 711)
+		yield_(x + 2)
+	})
+}
+
+func TH3(x int) *rt.Co[int] {
+	return rt.NewCo(func(yield_ func(int)) {
+		rt.Emit(rt.EFF, 720)
+		if x != x {
+			yield_(0)
+		}
+	})
+}
+
+func TH4(x int) *rt.Co[int] {
+	return rt.NewCo(func(yield_ func(int)) {
+		yield_(x + 5)
+		rt.YieldFromCo(yield_, TH2(x+10))
+		rt.Emit(rt.EFF, 730)
+		rt.YieldFromCo(yield_, TH3(x))
+		yield_(x + 6)
+	})
+}
+
+func TR1(d, x int) *rt.Co[int] {
+	return rt.NewCo(func(yield_ func(int)) {
+		rt.Emit(rt.EFF, 740)
+		if d <= 0 {
+			return
+		}
+		yield_(x + d)
+		rt.YieldFromCo(yield_, TR1(d-1, x+100))
+		yield_(x - d)
+	})
+}
+
+func TR2(x int) *rt.Co[int] {
+	return rt.NewCo(func(yield_ func(int)) {
+		for {
+			yield_(x)
+			x++
+		}
+	})
+}
+
+func TMK(x int) *rt.Co[int] {
+	rt.Emit(rt.EFF, 750)
+	return TH2(x)
+}
+"""
+
+TWIN_HELPERS["c18"] = """func PT(x int) *[3]int {
+	rt.Emit(rt.EFF, 985)
+	if x&1 == 0 {
+		panic(x + 7)
+	}
+	return &[3]int{1, 2, 3}
+}
+
+func PS(x int) []int {
+	rt.Emit(rt.EFF, 986)
+	if x&1 == 0 {
+		panic("ps")
+	}
+	return []int{4, 5}
+}
+
+func TH3(x int) *rt.Co[int] {
+	return rt.NewCo(func(yield_ func(int)) {
+		yield_(x + 3000)
+		if x%2 == 0 {
+			panic(x + 1)
+		}
+		yield_(x + 4000)
+	})
+}
+""" + TWIN_HELPERS["H2"]
+
+_TW_CALL = __import__("re").compile(r"\b(H[1-4]|R[12]|MK)\(")
+
+
+def twin_body(body, lax=False):
     """Yield(e) -> yield_(e), YieldFrom(H(..)) -> rt.YieldFromCo(yield_, TH(..)), return -> return;
     returns None if the body cannot be twinned (raw text mentioning the co API)"""
     out = []
@@ -281,42 +376,42 @@ def twin_body(body):
             out.append(("raw", "yield_(%s)" % s[1]))
         elif k == "yieldfrom":
             e = s[1]
-            if not e.startswith("H2("):
+            if not lax and not e.startswith("H2("):
                 return None
-            out.append(("raw", "rt.YieldFromCo(yield_, T%s)" % e))
+            out.append(("raw", "rt.YieldFromCo(yield_, %s)" % _TW_CALL.sub(lambda m: "T" + m.group(0), e)))
         elif k == "return":
             out.append(("raw", "return"))
         elif k in ("raw", "rawstmts"):
-            if "Yield" in s[1] or "Iter[" in s[1] or "MoveNext" in s[1]:
+            if "Yield" in s[1] or "Iter[" in s[1] or ("MoveNext" in s[1] and not lax):
                 return None
-            out.append(s)
+            out.append((k, _TW_CALL.sub(lambda m: "T" + m.group(0), s[1])) + tuple(s[2:]))
         elif k == "block":
-            b = twin_body(s[1])
+            b = twin_body(s[1], lax)
             if b is None:
                 return None
             out.append(("block", b))
         elif k == "if":
-            a = twin_body(s[2])
-            b = twin_body(s[3]) if s[3] is not None else None
+            a = twin_body(s[2], lax)
+            b = twin_body(s[3], lax) if s[3] is not None else None
             if a is None or (s[3] is not None and b is None):
                 return None
             out.append(("if", s[1], a, b))
         elif k in ("switch", "tswitch"):
             init = s[1]
             if k == "switch" and init is not None:
-                ib = twin_body([init])
+                ib = twin_body([init], lax)
                 if ib is None:
                     return None
                 init = ib[0]
             cases = []
             for v, b in s[3]:
-                tb = twin_body(b)
+                tb = twin_body(b, lax)
                 if tb is None:
                     return None
                 cases.append((v, tb))
             d = None
             if s[4] is not None:
-                d = twin_body(s[4])
+                d = twin_body(s[4], lax)
                 if d is None:
                     return None
             out.append((k, init, s[2], cases, d))
@@ -326,16 +421,16 @@ def twin_body(body):
                 if part is None:
                     parts.append(None)
                     continue
-                pb = twin_body([part])
+                pb = twin_body([part], lax)
                 if pb is None:
                     return None
                 parts.append(pb[0])
-            b = twin_body(s[4])
+            b = twin_body(s[4], lax)
             if b is None:
                 return None
             out.append(("for", parts[0], s[2], parts[1], b))
         elif k == "range":
-            b = twin_body(s[5])
+            b = twin_body(s[5], lax)
             if b is None:
                 return None
             out.append(("range", s[1], s[2], s[3], s[4], b))
@@ -365,16 +460,19 @@ class Program:
     def twin_source(self, K, extra_adv=0, nlo=-1, nhi=3):
         """native reference twin (goroutine coroutine, rt.Co): the same body with Yield(e) printed as
         yield_(e); None when the program uses things the twin printer does not cover"""
-        if getattr(self, "standalone_full", None) or getattr(self, "standalone", None) or self.driver:
+        if getattr(self, "standalone_full", None) or getattr(self, "standalone", None):
             return None
-        if getattr(self, "form", "func") == "nested":
-            pass  # YieldFrom(inner()) of the whole body is the body itself
+        key = getattr(self, "twin_key", None)
+        if self.driver and not getattr(self, "twin_driver", None):
+            return None
         helpers = ""
-        if self.helpers:
+        if key:
+            helpers = TWIN_HELPERS[key]
+        elif self.helpers:
             if self.helpers.strip() != C01_HELPERS_TEXT.strip():
                 return None
             helpers = TWIN_HELPERS["H2"]
-        tb = twin_body(self.body)
+        tb = twin_body(self.body, lax=bool(key))
         if tb is None:
             return None
         name = "T" + self.name
@@ -383,7 +481,7 @@ class Program:
         lines += ["\t})", "}", ""]
         if helpers:
             lines.append(helpers)
-        lines.append(std_driver(name, K, extra_adv, nlo, nhi, self.ret_type))
+        lines.append(getattr(self, "twin_driver", None) or std_driver(name, K, extra_adv, nlo, nhi, self.ret_type))
         text = "\n".join(lines) + "\n"
         for h in ("H1", "H2", "H3", "H4", "R1", "R2", "PT", "PS", "MK"):
             text = text.replace(h + "(", "%s_%s(" % (h, self.pid))
